@@ -1,0 +1,326 @@
+//go:build verif
+
+package comp
+
+// Contracts for package comp (properties C13, C14, C15, C05, C07).
+// Comment-only file: nothing here is compiled.
+
+//@ mode int
+
+// ---------------------------------------------------------------- SimpleBus (C14)
+// View: a two-slot latch (pending, current). An item added in cycle c is
+// returned by the second Get after it, never by the first.
+
+//@ func (*SimpleBus).Flush
+//@   ensures !b.pending.exists && !b.current.exists
+//@   assigns b.pending, b.current
+
+//@ func (*SimpleBus).Get
+//@   ensures exists == old(b.current.exists)
+//@   ensures old(b.current.exists) ==> t == old(b.current.t)
+//@   ensures b.current == old(b.pending)
+//@   ensures !b.pending.exists
+//@   assigns b.pending, b.current
+
+//@ func (*SimpleBus).CanAdd
+//@   ensures result == !b.pending.exists
+//@   assigns nothing
+
+//@ func (*SimpleBus).Add
+//@   ensures b.pending.exists && b.pending.t == t
+//@   assigns b.pending
+
+//@ func (*SimpleBus).IsEmpty
+//@   ensures result == (!b.pending.exists && !b.current.exists)
+//@   assigns nothing
+
+//@ func (*SimpleBus).Clean
+//@   ensures !b.pending.exists && !b.current.exists
+//@   assigns b.pending, b.current
+
+// ---------------------------------------------------------------- BufferedBus (C14)
+// View: seq = queue ++ items(buffer); each buffered item carries the first
+// cycle in which it may become visible.
+
+//@ func NewBufferedBus
+//@   ensures result != nil && fresh(result)
+//@   ensures len(result.queue) == 0 && len(result.buffer) == 0
+//@   ensures result.queueLength == queueLength && result.bufferLength == bufferLength
+//@   assigns nothing
+
+//@ func (*BufferedBus).InLength
+//@   ensures result == b.queueLength
+//@   assigns nothing
+
+//@ func (*BufferedBus).OutLength
+//@   ensures result == b.bufferLength
+//@   assigns nothing
+
+//@ func (*BufferedBus).Clean
+//@   ensures len(b.queue) == 0 && len(b.buffer) == 0
+//@   assigns b.queue, b.buffer
+
+//@ func (*BufferedBus).Add
+//@   requires currentCycle < 9223372036854775807
+//@   ensures len(b.buffer) == len(old(b.buffer)) + 1
+//@   ensures forall j :: 0 <= j && j < len(old(b.buffer)) ==> b.buffer[j] == old(b.buffer[j])
+//@   ensures b.buffer[len(old(b.buffer))].t == t && b.buffer[len(old(b.buffer))].availableFromCycle == currentCycle + 1
+//@   assigns b.buffer, b.buffer[*]
+
+//@ func (*BufferedBus).Revert
+//@   ensures len(b.buffer) == len(old(b.buffer)) + 1
+//@   ensures b.buffer[0].t == t && b.buffer[0].availableFromCycle == currentCycle
+//@   ensures forall j :: 0 <= j && j < len(old(b.buffer)) ==> b.buffer[j+1] == old(b.buffer[j])
+//@   assigns b.buffer
+
+//@ func (*BufferedBus).DeleteLast
+//@   ensures len(old(b.buffer)) == 0 ==> len(b.buffer) == 0
+//@   ensures len(old(b.buffer)) > 0 ==> len(b.buffer) == len(old(b.buffer)) - 1
+//@   ensures forall j :: 0 <= j && j < len(b.buffer) ==> b.buffer[j] == old(b.buffer[j])
+//@   assigns b.buffer
+
+//@ func (*BufferedBus).Get
+//@   ensures result1 == (len(old(b.queue)) != 0)
+//@   ensures result1 ==> result == old(b.queue[0]) && len(b.queue) == len(old(b.queue)) - 1
+//@   ensures result1 ==> (forall j :: 0 <= j && j < len(b.queue) ==> b.queue[j] == old(b.queue[j+1]))
+//@   ensures !result1 ==> len(b.queue) == 0
+//@   assigns b.queue
+
+//@ func (*BufferedBus).Exists
+//@   ensures result == (exists j :: 0 <= j && j < len(b.queue) && predicate(b.queue[j]))
+//@   assigns nothing
+//@   loop 0: invariant forall j :: 0 <= j && j < _idx0 ==> !predicate(b.queue[j])
+
+//@ func (*BufferedBus).CanGet
+//@   ensures result == (len(b.queue) != 0)
+//@   assigns nothing
+
+//@ func (*BufferedBus).CanAdd
+//@   ensures result == (len(b.buffer) != b.bufferLength)
+//@   assigns nothing
+
+//@ func (*BufferedBus).RemainingToAdd
+//@   requires -4611686018427387904 <= b.bufferLength && b.bufferLength <= 4611686018427387904
+//@   ensures result == b.bufferLength - len(b.buffer)
+//@   assigns nothing
+
+//@ func (*BufferedBus).PendingRead
+//@   ensures result == len(b.queue)
+//@   assigns nothing
+
+//@ func (*BufferedBus).IsEmpty
+//@   ensures result == (len(b.queue) == 0 && len(b.buffer) == 0)
+//@   assigns nothing
+
+// Connect moves a prefix of the buffer, in order, to the end of the queue:
+// nothing is lost, duplicated or reordered; only items whose stamp is <= the
+// current cycle move (the one-cycle rule, together with Add's stamp c+1); the
+// queue never exceeds queueLength when it did not before.
+//@ func (*BufferedBus).Connect
+//@   requires len(b.queue) <= b.queueLength
+//@   ensures len(b.queue) >= len(old(b.queue)) && len(b.queue) - len(old(b.queue)) <= len(old(b.buffer))
+//@   ensures len(b.buffer) == len(old(b.buffer)) - (len(b.queue) - len(old(b.queue)))
+//@   ensures forall j :: 0 <= j && j < len(old(b.queue)) ==> b.queue[j] == old(b.queue[j])
+//@   ensures forall j :: 0 <= j && j < len(b.queue) - len(old(b.queue)) ==> b.queue[len(old(b.queue)) + j] == old(b.buffer[j].t) && old(b.buffer[j].availableFromCycle) <= currentCycle
+//@   ensures forall j :: 0 <= j && j < len(b.buffer) ==> b.buffer[j] == old(b.buffer[j + now(len(b.queue) - len(old(b.queue)))])
+//@   ensures len(b.buffer) > 0 ==> len(b.queue) == b.queueLength || b.buffer[0].availableFromCycle > currentCycle
+//@   ensures len(b.queue) <= b.queueLength
+//@   assigns b.queue, b.buffer, b.queue[*]
+//@   loop 0: invariant 0 <= i && i <= len(b.buffer) && b.buffer == old(b.buffer)
+//@   loop 0: invariant len(b.queue) == len(old(b.queue)) + i && len(b.queue) <= b.queueLength
+//@   loop 0: invariant sameArray(b.queue, old(b.queue)) || fresh(b.queue)
+//@   loop 0: invariant forall j :: 0 <= j && j < len(old(b.queue)) ==> b.queue[j] == old(b.queue[j])
+//@   loop 0: invariant forall j :: 0 <= j && j < i ==> b.queue[len(old(b.queue)) + j] == old(b.buffer[j].t) && old(b.buffer[j].availableFromCycle) <= currentCycle
+//@   loop 0: invariant forall j :: 0 <= j && j < len(old(b.buffer)) ==> b.buffer[j] == old(b.buffer[j])
+
+// ---------------------------------------------------------------- LRUCache (C13, C05)
+// View: the MRU-first sequence c.lines of (Boundary, Data) lines.
+
+//@ spec func covers(l Line, a int32) bool = a >= int32(l.Boundary[0]) && a < int32(l.Boundary[1])
+//@ spec func wfLine(c *LRUCache, l Line) bool = 0 <= int32(l.Boundary[0]) && int(l.Boundary[1]) - int(l.Boundary[0]) == c.lineLength && len(l.Data) == c.lineLength
+//@ spec func wfCache(c *LRUCache) bool = c.lineLength > 0 && c.lineLength <= 1048576 && c.numberOfLines >= 0 && (forall j :: 0 <= j && j < len(c.lines) ==> wfLine(c, c.lines[j]))
+
+//@ func (Line).get
+//@   requires 0 <= int32(l.Boundary[0]) && int(l.Boundary[1]) - int(l.Boundary[0]) == len(l.Data)
+//@   ensures result1 == covers(l, addr)
+//@   ensures result1 ==> result == l.Data[addr - int32(l.Boundary[0])]
+//@   ensures !result1 ==> result == 0
+//@   assigns nothing
+
+//@ func (Line).set
+//@   requires 0 <= int32(l.Boundary[0]) && int(l.Boundary[1]) - int(l.Boundary[0]) == len(l.Data) && covers(l, addr)
+//@   ensures l.Data[addr - int32(l.Boundary[0])] == value
+//@   ensures forall k :: 0 <= k && k < len(l.Data) && k != addr - int32(l.Boundary[0]) ==> l.Data[k] == old(l.Data[k])
+//@   assigns l.Data[*]
+
+//@ func NewLRUCache
+//@   requires lineLength > 0 && cacheLength >= 0 && cacheLength % lineLength == 0
+//@   ensures result != nil && fresh(result)
+//@   ensures result.numberOfLines == cacheLength / lineLength && result.lineLength == lineLength && result.cacheLength == cacheLength
+//@   ensures len(result.lines) == 0
+//@   assigns nothing
+
+//@ func (*LRUCache).ExistingLines
+//@   requires c.numberOfLines >= 0
+//@   ensures len(result) == min(len(c.lines), c.numberOfLines)
+//@   ensures forall j :: 0 <= j && j < len(result) ==> result[j] == c.lines[j]
+//@   assigns nothing
+
+//@ func (*LRUCache).Lines
+//@   ensures result == c.lines
+//@   assigns nothing
+
+// Get: a byte is present exactly when a resident line covers it; the first
+// covering line moves to the front, every other line keeps its relative
+// position; line contents are untouched.
+//@ func (*LRUCache).Get
+//@   requires wfCache(c)
+//@   ensures result1 == (exists i :: 0 <= i && i < len(old(c.lines)) && covers(old(c.lines[i]), addr))
+//@   ensures !result1 ==> c.lines == old(c.lines) && result == 0
+//@   ensures result1 ==> covers(c.lines[0], addr) && result == c.lines[0].Data[addr - int32(c.lines[0].Boundary[0])]
+//@   ensures forall i :: result1 && 0 <= i && i < len(old(c.lines)) && covers(old(c.lines[i]), addr) && (forall j :: 0 <= j && j < i ==> !covers(old(c.lines[j]), addr)) ==> c.lines[0] == old(c.lines[i])
+//@   ensures forall i, k :: result1 && 0 <= i && i < len(old(c.lines)) && covers(old(c.lines[i]), addr) && (forall j :: 0 <= j && j < i ==> !covers(old(c.lines[j]), addr)) && 0 < k && k <= i ==> c.lines[k] == old(c.lines[k-1])
+//@   ensures forall i, k :: result1 && 0 <= i && i < len(old(c.lines)) && covers(old(c.lines[i]), addr) && (forall j :: 0 <= j && j < i ==> !covers(old(c.lines[j]), addr)) && i < k && k < len(c.lines) ==> c.lines[k] == old(c.lines[k])
+//@   ensures len(c.lines) == len(old(c.lines))
+//@   assigns c.lines
+//@   loop 0: invariant c.lines == old(c.lines)
+//@   loop 0: invariant forall j :: 0 <= j && j < _idx0 ==> !covers(c.lines[j], addr)
+
+//@ func (*LRUCache).GetCacheLine
+//@   requires wfCache(c)
+//@   ensures result1 == (exists i :: 0 <= i && i < len(c.lines) && covers(c.lines[i], int32(addr)))
+//@   ensures forall i :: result1 && 0 <= i && i < len(c.lines) && covers(c.lines[i], int32(addr)) && (forall j :: 0 <= j && j < i ==> !covers(c.lines[j], int32(addr))) ==> result == c.lines[i].Data
+//@   ensures !result1 ==> result == nil
+//@   assigns nothing
+//@   loop 0: invariant forall j :: 0 <= j && j < _idx0 ==> !covers(c.lines[j], int32(addr))
+
+// EvictCacheLine removes exactly the first line covering addr and returns its
+// data; the other lines keep their order.
+//@ func (*LRUCache).EvictCacheLine
+//@   requires wfCache(c)
+//@   ensures result1 == (exists i :: 0 <= i && i < len(old(c.lines)) && covers(old(c.lines[i]), int32(addr)))
+//@   ensures !result1 ==> c.lines == old(c.lines) && result == nil
+//@   ensures result1 ==> len(c.lines) == len(old(c.lines)) - 1
+//@   ensures forall i :: result1 && 0 <= i && i < len(old(c.lines)) && covers(old(c.lines[i]), int32(addr)) && (forall j :: 0 <= j && j < i ==> !covers(old(c.lines[j]), int32(addr))) ==> result == old(c.lines[i].Data)
+//@   ensures forall i, k :: result1 && 0 <= i && i < len(old(c.lines)) && covers(old(c.lines[i]), int32(addr)) && (forall j :: 0 <= j && j < i ==> !covers(old(c.lines[j]), int32(addr))) && 0 <= k && k < i ==> c.lines[k] == old(c.lines[k])
+//@   ensures forall i, k :: result1 && 0 <= i && i < len(old(c.lines)) && covers(old(c.lines[i]), int32(addr)) && (forall j :: 0 <= j && j < i ==> !covers(old(c.lines[j]), int32(addr))) && i <= k && k < len(c.lines) ==> c.lines[k] == old(c.lines[k+1])
+//@   assigns c.lines, c.lines[*]
+//@   loop 0: invariant c.lines == old(c.lines)
+//@   loop 0: invariant forall j :: 0 <= j && j < _idx0 ==> !covers(c.lines[j], int32(addr))
+
+// PushLine: the new line goes in front, the rest is shifted; when the cache
+// was full the least-recently-used (last) line is displaced and its data is
+// reported.
+//@ func (*LRUCache).PushLine
+//@   requires c.numberOfLines >= 0 && c.lineLength >= 0 && c.lineLength <= 1048576 && 0 <= int32(addr) && int32(addr) <= 1073741824
+//@   requires len(c.lines) <= c.numberOfLines
+//@   ensures len(c.lines) == min(len(old(c.lines)) + 1, c.numberOfLines)
+//@   ensures c.numberOfLines > 0 ==> c.lines[0].Boundary[0] == addr && int(c.lines[0].Boundary[1]) == int(addr) + c.lineLength && c.lines[0].Data == data
+//@   ensures forall j :: 0 < j && j < len(c.lines) ==> c.lines[j] == old(c.lines[j-1])
+//@   ensures len(old(c.lines)) < c.numberOfLines ==> result == nil
+//@   ensures len(old(c.lines)) == c.numberOfLines && c.numberOfLines > 0 ==> result == old(c.lines[len(c.lines)-1].Data)
+//@   ensures len(old(c.lines)) == c.numberOfLines && c.numberOfLines == 0 ==> result == data
+//@   assigns c.lines
+
+//@ func (*LRUCache).PushLineWithEvictionWarning
+//@   requires c.numberOfLines >= 0 && c.lineLength >= 0 && c.lineLength <= 1048576 && 0 <= int32(addr) && int32(addr) <= 1073741824
+//@   ensures len(c.lines) == len(old(c.lines)) + 1
+//@   ensures c.lines[0].Boundary[0] == addr && int(c.lines[0].Boundary[1]) == int(addr) + c.lineLength && c.lines[0].Data == data
+//@   ensures forall j :: 0 < j && j < len(c.lines) ==> c.lines[j] == old(c.lines[j-1])
+//@   ensures (result != nil) == (len(c.lines) > c.numberOfLines)
+//@   ensures result != nil ==> fresh(result) && *result == c.lines[len(c.lines)-1]
+//@   assigns c.lines
+
+// ---------------------------------------------------------------- RAT (C15, C04)
+// A ring of the last `length` values written per key. Slot idx is the newest;
+// recency decreases towards 0 and then from length-1 down to idx+1 (those
+// later slots hold written values only once the ring has wrapped).
+
+//@ opaque spec func has(r *RAT, k K) bool = k in r.idx
+//@ opaque spec func newest(r *RAT, k K) V = r.values[k][r.idx[k]]
+//@ opaque spec func slot(r *RAT, k K, i int) V = r.values[k][i]
+//@ opaque spec func ringLen(r *RAT) int = r.length
+//@ opaque spec func validSlot(r *RAT, k K, i int) bool = k in r.idx && ((0 <= i && i <= r.idx[k]) || (r.wrapped[k] && r.idx[k] < i && i < r.length))
+//@ opaque spec func rank(r *RAT, k K, i int) int = i <= r.idx[k] ? r.idx[k] - i : r.idx[k] + r.length - i
+//@ opaque spec func wfRAT(r *RAT) bool = r != nil && 0 < r.length && r.length <= 1073741824 && r.values != nil && r.idx != nil && r.wrapped != nil \
+//@    && (forall k K :: (k in r.idx) == (k in r.values)) \
+//@    && (forall k K :: k in r.idx ==> 0 <= r.idx[k] && r.idx[k] < r.length && len(r.values[k]) == r.length && allocated(r.values[k])) \
+//@    && (forall k K :: r.wrapped[k] ==> k in r.idx) \
+//@    && (forall k1 K, k2 K :: k1 in r.idx && k2 in r.idx && k1 != k2 ==> !sameArray(r.values[k1], r.values[k2]))
+
+//@ func NewRAT
+//@   requires 0 < length && length <= 1073741824
+//@   ensures fresh(result) && wfRAT(result) && result.length == length
+//@   ensures fresh(result.idx) && fresh(result.values) && fresh(result.wrapped)
+//@   ensures forall k K :: !(k in result.idx)
+//@   ensures forall k K :: !has(result, k)
+//@   ensures ringLen(result) == length
+//@   assigns nothing
+
+//@ func (*RAT).Read
+//@   requires wfRAT(r)
+//@   ensures result1 == (k in r.idx)
+//@   ensures result1 ==> result == r.values[k][r.idx[k]]
+//@   ensures !result1 ==> result == zeroOf(result)
+//@   ensures result1 == has(r, k)
+//@   ensures result1 ==> result == newest(r, k) && validSlot(r, k, r.idx[k]) && rank(r, k, r.idx[k]) == 0 && slot(r, k, r.idx[k]) == newest(r, k)
+//@   assigns nothing
+
+// Find returns the most recently written value among the written slots that
+// satisfies the predicate.
+//@ func (*RAT).Find
+//@   requires wfRAT(r)
+//@   ensures result1 == (exists i :: validSlot(r, k, i) && predicate(r.values[k][i]))
+//@   ensures forall i :: result1 && validSlot(r, k, i) && predicate(r.values[k][i]) && (forall i2 :: validSlot(r, k, i2) && predicate(r.values[k][i2]) ==> rank(r, k, i) <= rank(r, k, i2)) ==> result == r.values[k][i]
+//@   ensures result1 == (exists i :: validSlot(r, k, i) && predicate(slot(r, k, i)))
+//@   ensures forall i :: result1 && validSlot(r, k, i) && predicate(slot(r, k, i)) && (forall i2 :: validSlot(r, k, i2) && predicate(slot(r, k, i2)) ==> rank(r, k, i) <= rank(r, k, i2)) ==> result == slot(r, k, i)
+//@   ensures result1 ==> (exists i :: validSlot(r, k, i) && result == slot(r, k, i) && predicate(result))
+//@   assigns nothing
+//@   loop 0: invariant -1 <= i && i <= idx && (forall j :: i < j && j <= idx ==> !predicate(r.values[k][j]))
+//@   loop 1: invariant idx <= i && i <= r.length - 1 && (forall j :: i < j && j < r.length ==> !predicate(r.values[k][j]))
+//@   loop 1: invariant forall j :: 0 <= j && j <= idx ==> !predicate(r.values[k][j])
+
+//@ func (*RAT).Write
+//@   requires wfRAT(r)
+//@   ensures wfRAT(r)
+//@   ensures k in r.idx && r.values[k][r.idx[k]] == value
+//@   ensures old(k in r.idx) ==> r.idx[k] == (old(r.idx[k]) + 1) % r.length && sameArray(r.values[k], old(r.values[k])) && r.wrapped[k] == (old(r.wrapped[k]) || r.idx[k] == 0)
+//@   ensures old(k in r.idx) ==> (forall i :: 0 <= i && i < r.length && i != r.idx[k] ==> r.values[k][i] == old(r.values[k][i]))
+//@   ensures !old(k in r.idx) ==> r.idx[k] == 0 && !r.wrapped[k] && fresh(r.values[k])
+//@   ensures forall k2 K :: k2 != k ==> (k2 in r.idx) == old(k2 in r.idx) && r.idx[k2] == old(r.idx[k2]) && r.values[k2] == old(r.values[k2]) && r.wrapped[k2] == old(r.wrapped[k2])
+//@   ensures forall k2 K, i int :: k2 != k && k2 in r.idx && 0 <= i && i < r.length ==> r.values[k2][i] == old(r.values[k2][i])
+//@   ensures has(r, k) && newest(r, k) == value && ringLen(r) == old(ringLen(r))
+//@   ensures forall k2 K :: k2 != k ==> has(r, k2) == old(has(r, k2)) && newest(r, k2) == old(newest(r, k2))
+//@   ensures forall k2 K, i int :: k2 != k ==> slot(r, k2, i) == old(slot(r, k2, i)) && validSlot(r, k2, i) == old(validSlot(r, k2, i)) && rank(r, k2, i) == old(rank(r, k2, i))
+//@   assigns r.idx[*], r.values[*], r.wrapped[*], r.values[k][*]
+
+//@ func (*RAT).Values
+//@   requires wfRAT(r)
+//@   ensures result != nil && fresh(result)
+//@   ensures forall k K :: (k in result) == (k in r.idx)
+//@   ensures forall k K :: k in r.idx ==> result[k] == r.values[k][r.idx[k]]
+//@   ensures forall k K :: (k in result) == has(r, k)
+//@   ensures forall k K :: has(r, k) ==> result[k] == newest(r, k)
+//@   ensures forall k K :: has(r, k) ==> validSlot(r, k, r.idx[k]) && rank(r, k, r.idx[k]) == 0 && slot(r, k, r.idx[k]) == newest(r, k)
+//@   ensures forall k K, i int :: validSlot(r, k, i) ==> rank(r, k, i) >= 0 && has(r, k)
+//@   assigns nothing
+//@   loop 0: invariant forall k K :: (k in m) == visited(k)
+//@   loop 0: invariant forall k K :: visited(k) ==> k in r.idx && m[k] == r.values[k][r.idx[k]]
+
+// FindValues: per key, the most recently written value among the written
+// slots that satisfies the predicate; keys without such a slot are absent.
+//@ func (*RAT).FindValues
+//@   requires wfRAT(r)
+//@   ensures result != nil && fresh(result)
+//@   ensures forall k K :: (k in result) == (exists i :: validSlot(r, k, i) && predicate(r.values[k][i]))
+//@   ensures forall k K, i int :: k in result && validSlot(r, k, i) && predicate(r.values[k][i]) && (forall i2 :: validSlot(r, k, i2) && predicate(r.values[k][i2]) ==> rank(r, k, i) <= rank(r, k, i2)) ==> result[k] == r.values[k][i]
+//@   ensures forall k K :: (k in result) == (exists i :: validSlot(r, k, i) && predicate(slot(r, k, i)))
+//@   ensures forall k K, i int :: k in result && validSlot(r, k, i) && predicate(slot(r, k, i)) && (forall i2 :: validSlot(r, k, i2) && predicate(slot(r, k, i2)) ==> rank(r, k, i) <= rank(r, k, i2)) ==> result[k] == slot(r, k, i)
+//@   ensures forall k K :: k in result ==> (exists i :: validSlot(r, k, i) && result[k] == slot(r, k, i) && predicate(result[k]))
+//@   assigns nothing
+//@   loop 0: invariant forall k K :: !visited(k) ==> !(k in m)
+//@   loop 0: invariant forall k K :: visited(k) ==> k in r.idx && (k in m) == (exists i :: validSlot(r, k, i) && predicate(r.values[k][i]))
+//@   loop 0: invariant forall k K, i int :: visited(k) && k in m && validSlot(r, k, i) && predicate(r.values[k][i]) && (forall i2 :: validSlot(r, k, i2) && predicate(r.values[k][i2]) ==> rank(r, k, i) <= rank(r, k, i2)) ==> m[k] == r.values[k][i]
+//@   loop 0: invariant forall k K :: visited(k) && k in m ==> (exists i :: validSlot(r, k, i) && m[k] == r.values[k][i] && predicate(m[k]))
+//@   loop 1: invariant -1 <= i && i <= v && !found && (forall j :: i < j && j <= v ==> !predicate(r.values[k][j]))
+//@   loop 2: invariant v <= i && i <= r.length - 1 && (forall j :: i < j && j < r.length ==> !predicate(r.values[k][j]))
